@@ -276,3 +276,35 @@ def check(ctx):
                  'were stored by types-only parses under the same key', detail=flips)
     else:
         r5.ok('parse mode independent of transformer state', tm.rel, pi.lineno)
+    cache_key_rule(ctx, r5)
+
+
+def cache_key_rule(ctx, rule):
+    """the cache entry of a file is named by a digest of the file's full path, losslessly encoded: two different GIR files never share an entry
+    (shared with C16: the output must not depend on what another run left in the cache)"""
+    py = ctx.py
+    GF = gsa.summarise(ctx, 'cachestore', 'CacheStore._get_filename', inline_only=())
+    fp = GF.P(1)
+    hashed = []
+    for g_, n in GF.returns:
+        if n is None:
+            continue
+        for c in ast.walk(n):
+            if isinstance(c, ast.Call) and re.match(r'^hashlib\.\w+$', gsa._unparse(c.func)) and c.args:
+                hashed.append(c.args[0])
+    if not hashed:
+        raise AnalysisError('CacheStore._get_filename: no hashlib digest in the returned path')
+    LOSSLESS_ERRORS = (None, 'strict', 'surrogateescape', 'surrogatepass')
+    for h in hashed:
+        ok = isinstance(h, ast.Call) and isinstance(h.func, ast.Attribute) and h.func.attr == 'encode' and gsa._unparse(h.func.value) == fp
+        why = 'the digest is taken over `%s`, not over the encoded file name `%s` itself' % (gsa._unparse(h)[:80], fp)
+        if ok:
+            enc = h.args[0] if h.args else next((k.value for k in h.keywords if k.arg == 'encoding'), None)
+            err = h.args[1] if len(h.args) > 1 else next((k.value for k in h.keywords if k.arg == 'errors'), None)
+            encv = py.try_fold(enc, py.mod('cachestore')) if enc is not None else 'utf-8'
+            errv = py.try_fold(err, py.mod('cachestore')) if err is not None else None
+            ok = isinstance(encv, str) and encv.lower().replace('_', '-') in ('utf-8', 'utf8', 'utf-16', 'utf-32') and errv in LOSSLESS_ERRORS
+            why = 'the file name is encoded with (%r, errors=%r): different names can encode to the same bytes' % (encv, errv)
+        rule.check(ok, 'cache entry named by a digest of the full, losslessly encoded path', 'giscanner/cachestore.py', GF.func.lineno,
+                   '%s; two different GIR files (Foo-1.0.gir in two directories, or names differing in non-ASCII characters) share one cache entry and the second is '
+                   'served the parse of the first' % why, detail=gsa._unparse(h))
